@@ -10,7 +10,7 @@ from copy import deepcopy
 from functools import partial
 from itertools import takewhile
 from operator import contains, eq
-from typing import Dict
+from typing import Dict, Optional
 
 from cdd.shared.pure_utils import (
     PY_GTE_3_8,
@@ -160,8 +160,14 @@ def extract_default(
     par: Dict[str, int] = {"{": 0, "[": 0, "(": 0, ")": 0, "]": 0, "}": 0}
     sub_l: str = line[_end_idx:default_end_offset]
     sub_l_len: int = len(sub_l)
+    quote_mark: Optional[str] = None  # a full stop inside quotes / backticks is part of the value
     for idx, ch in enumerate(sub_l):
-        if (
+        if quote_mark is not None:
+            if ch == quote_mark and sub_l[idx - 1] != "\\":
+                quote_mark = None
+        elif ch in frozenset(("'", '"', "`")):
+            quote_mark = ch
+        elif (
             ch == "."
             and (idx == (sub_l_len - 1) or not (sub_l[idx + 1]).isdigit())
             and not sum(par.values())
